@@ -343,8 +343,8 @@ def write_ledger(prop):
     led = load_ledger()
     obs = {}
     for v in run.vcs:
-        if v.kind == "canary" or v.oid.startswith("safe/"):
-            continue
+        if v.kind in ("canary", "canary-aux") or v.oid.startswith("safe/"):
+            continue                         # (side obligations of deliberately false theorems are not part of any verdict)
         if v.result["status"] == "unsat":
             obs[v.oid] = obs.get(v.oid, 0) + 1
     led[prop] = {"obligations": obs, "functions": {f["function"]: f["sha256"] for f in run.functions}}
@@ -498,6 +498,43 @@ def run_property(prop, tier, seed, verbose=False, write_evidence=True):
     dt = difftest(run, rng, 25 if tier == "quick" else 400)
     if dt["mismatches"]:
         errors.append("interpreter differs from CPython: %s" % dt["mismatches"][:2])
+    # ---- the executable contracts on the REAL functions with the samplers' own NumPy types (integer dtypes, scalars,
+    # ranks): a bounded stand-in for what the real-arithmetic proof abstracts away (A2/A3); never counted as proved
+    cs_total, cs_fail = 0, 0
+    for c in run.contracts:
+        smp = getattr(c, "sampler", None)
+        if smp is None or not c.verify_body:
+            continue
+        done = tries = 0
+        n_s = 25 if tier == "quick" else 300
+        while done < n_s and tries < 10 * n_s:
+            tries += 1
+            try:
+                s_args = smp(rng)
+            except Exception:
+                break
+            if s_args is None:
+                break
+            try:
+                verdict, detail = contract_check_concrete(c, s_args)
+            except Exception as exc:
+                verdict, detail = "skip", None
+            if verdict == "skip":
+                continue
+            done += 1
+            cs_total += 1
+            if verdict == "fail":
+                cs_fail += 1
+                oid_ = "bounded/contract-on-samples/%s" % c.label
+                os.makedirs(replay_dir, exist_ok=True)
+                path = os.path.join(replay_dir, oid_.replace("/", "__").replace(":", "_")[:150] + ".json")
+                json.dump({"property": prop, "obligation": oid_, "owner": c.label, "clause": (detail or {}).get("clause"),
+                           "witness_kind": "contract-on-samples", "inputs": jsonable(s_args), "detail": jsonable(detail), "tier": tier, "seed": seed},
+                          open(path, "w"), indent=1)
+                violations.append((oid_, path, True))
+                lines.append("VIOLATION property=%s replay=%s obligation=%s" % (prop, path, oid_))
+                break
+    dt["contract_on_samples"] = {"evaluations": cs_total, "failures": cs_fail}
     bounded_out = []
     for b in run.bounded:
         try:
